@@ -1239,7 +1239,7 @@ func TestC12(t *testing.T) {
 
 	h.RunProp(t, permGrid, 0)
 	h.RunProp(t, redefGrid, 0)
-	h.RunProp(t, classes, h.N(3000, 40000))
+	h.RunProp(t, classes, h.N(3000, 60000))
 
 	maxN := 3
 	if h.Thorough() {
